@@ -138,9 +138,15 @@ impl Scenario for Conc {
         let vm: Arc<VersionManager> = tm.version_manager().clone();
         let ledger = Arc::new(Mutex::new(Ledger { inflight: vec![[0, 0]; nthreads], ..Default::default() }));
         let mode = self.mode;
+        // one retire list shared by all threads (stamp first, take the list lock later: arrival
+        // order need not be age order) or one per thread; the bulk limit is a per-run knob
+        let shared_list = cfg.below(2) == 1;
+        let bulk = cfg.biased_zero(4, 1, 2) as usize;
+        let mk_list = move || if bulk == 0 { LazyFreeList::new() } else { LazyFreeList::with_bulk_threshold(bulk) };
+        let shared: Arc<Mutex<LazyFreeList>> = Arc::new(Mutex::new(mk_list()));
         let mut bodies: Vec<e1::Body> = vec![];
         for t in 0..nthreads {
-            let planned = 2 + cfg.below(4);
+            let planned = 2 + cfg.below(7);
             let mut ops = cx.src.ops(&format!("ops.t{}", t), planned);
             let mut list: Vec<[u64; 4]> = vec![];
             while let Some(o) = ops.next() {
@@ -150,9 +156,13 @@ impl Scenario for Conc {
             let tm = tm.clone();
             let vm = vm.clone();
             let ledger = ledger.clone();
+            let shared = shared.clone();
             bodies.push(Box::new(move |me: usize| {
                 let mut held: Vec<Tok> = vec![];
-                let mut lazy = LazyFreeList::new();
+                // (no scheduling point is ever reached while the list lock is held: the list is plain data)
+                let own: Arc<Mutex<LazyFreeList>> = if shared_list { shared.clone() } else { Arc::new(Mutex::new(mk_list())) };
+                // items stamped with their retire version but not queued yet (queued before the next reclaim)
+                let mut deferred: Vec<LazyFreeItem> = vec![];
                 let lg = |f: &mut dyn FnMut(&mut Ledger)| {
                     let mut l = ledger.lock().unwrap();
                     f(&mut l);
@@ -202,13 +212,28 @@ impl Scenario for Conc {
                         // retire an item at the current version
                         3 => {
                             let age = vm.current_version();
-                            lazy.push(LazyFreeItem::new(age, o[1] as u32, 8));
-                            lg(&mut |l| l.events.push(format!("t{} retire age={}", me, age)));
+                            let item = LazyFreeItem::new(age, o[1] as u32, 8);
+                            if o[2] % 3 == 0 {
+                                deferred.push(item);
+                                lg(&mut |l| l.events.push(format!("t{} retire age={} (queued later)", me, age)));
+                            } else {
+                                own.lock().unwrap().push(item);
+                                lg(&mut |l| l.events.push(format!("t{} retire age={}", me, age)));
+                            }
                         }
                         // reclaim what the manager says is safe
                         4 => {
+                            if !deferred.is_empty() {
+                                let mut q = own.lock().unwrap();
+                                for item in deferred.drain(..) {
+                                    q.push(item);
+                                }
+                                drop(q);
+                                lg(&mut |l| l.events.push(format!("t{} queue deferred items", me)));
+                            }
                             let mv = vm.min_version();
                             let ledger2 = ledger.clone();
+                            let mut lazy = own.lock().unwrap();
                             lazy.process_safe_items(mv, |item| {
                                 let mut l = ledger2.lock().unwrap();
                                 l.reclaimed += 1;
@@ -548,6 +573,127 @@ impl Scenario for Seq {
     }
 }
 
+/// Sequential retire/reclaim histories on one manager: tokens of several versions stay live while
+/// items are stamped, queued (possibly later than they were stamped, so not in age order) and reclaimed.
+struct Reclaim;
+
+impl Scenario for Reclaim {
+    fn name(&self) -> String {
+        "seq/reclaim".into()
+    }
+    fn budget(&self, tier: Tier) -> u64 {
+        match tier {
+            Tier::Quick => 6000,
+            Tier::Thorough => 300_000,
+        }
+    }
+    fn run(&self, cx: &mut Run) {
+        let cfg = cx.src.chan("cfg");
+        let level = if cfg.below(2) == 0 { ConcurrencyLevel::OneWriteMultiRead } else { ConcurrencyLevel::MultiWriteMultiRead };
+        let bulk = cfg.biased_zero(4, 1, 2) as usize;
+        let planned = 4 + cfg.below(12);
+        let mut ops = cx.src.ops("ops", planned);
+        let vm = VersionManager::new(level);
+        let mut lazy = if bulk == 0 { LazyFreeList::new() } else { LazyFreeList::with_bulk_threshold(bulk) };
+        let mut held: Vec<Tok> = vec![];
+        let mut deferred: Vec<LazyFreeItem> = vec![];
+        let mut n = 0u64;
+        let mut freed = 0u64;
+        let mut out_of_order = 0u64;
+        let mut last_queued_age: Option<u64> = None;
+        let mut viol: Option<Violation> = None;
+        cx.ev(&format!("level={} bulk_threshold={}", level_name(level), if bulk == 0 { 32 } else { bulk }));
+        while let Some(o) = ops.next() {
+            n += 1;
+            match o[0] % 6 {
+                0 => match vm.acquire_reader_token() {
+                    Ok(t) => {
+                        cx.ev(&format!("acquire_R -> v{}", t.version()));
+                        held.push(Tok::R(t));
+                    }
+                    Err(_) => cx.ev("acquire_R -> refused"),
+                },
+                1 => match vm.acquire_writer_token() {
+                    Ok(t) => {
+                        cx.ev(&format!("acquire_W -> v{}", t.version()));
+                        held.push(Tok::W(t));
+                    }
+                    Err(_) => cx.ev("acquire_W -> refused"),
+                },
+                2 => {
+                    if !held.is_empty() {
+                        let t = held.remove((o[1] as usize) % held.len());
+                        cx.ev(&format!("drop_{} v{}", KIND[t.kind()], t.version()));
+                        drop(t);
+                    }
+                }
+                3 | 4 => {
+                    let age = vm.current_version();
+                    let item = LazyFreeItem::new(age, o[1] as u32, 8);
+                    if o[2] % 2 == 0 {
+                        deferred.push(item);
+                        cx.ev(&format!("retire age={} (queued later)", age));
+                    } else {
+                        if last_queued_age.map_or(false, |a| a > age) {
+                            out_of_order += 1;
+                        }
+                        last_queued_age = Some(age);
+                        lazy.push(item);
+                        cx.ev(&format!("retire age={}", age));
+                    }
+                }
+                _ => {
+                    for item in deferred.drain(..) {
+                        if last_queued_age.map_or(false, |a| a > item.age) {
+                            out_of_order += 1;
+                        }
+                        last_queued_age = Some(item.age);
+                        lazy.push(item);
+                    }
+                    let mv = vm.min_version();
+                    let live: Vec<(usize, u64)> = held.iter().map(|t| (t.kind(), t.version())).collect();
+                    let mut evs: Vec<String> = vec![];
+                    lazy.process_safe_items(mv, |item| {
+                        freed += 1;
+                        if let Some((k, v)) = live.iter().find(|(_, v)| *v <= item.age) {
+                            if viol.is_none() {
+                                viol = Some(Violation::new(
+                                    "reclaimed_while_visible",
+                                    "inv.reclaim",
+                                    format!("item retired at version {} freed (threshold {}) while a {} token of version {} is live", item.age, mv, KIND[*k], v),
+                                ));
+                            }
+                        }
+                        evs.push(format!("free age={} (threshold {})", item.age, mv));
+                    });
+                    cx.ev(&format!("reclaim threshold={} live={:?}", mv, live));
+                    for e in &evs {
+                        cx.ev(e);
+                    }
+                    if level.requires_synchronization() {
+                        if let Some((k, v)) = live.iter().find(|(_, v)| mv > *v) {
+                            if viol.is_none() {
+                                viol = Some(Violation::new("min_version_exceeds_live_token", "inv.min_version", format!("min_version()={} but a live {} token has version {}", mv, KIND[*k], v)));
+                            }
+                        }
+                    }
+                }
+            }
+            if viol.is_some() {
+                break;
+            }
+        }
+        drop(held);
+        cx.steps = n;
+        cx.probe_n("items_freed", freed);
+        cx.probe_n("queued_out_of_age_order", out_of_order);
+        cx.nontrivial = n >= 4;
+        if let Some(v) = viol {
+            cx.violate(&v.class, &v.site, v.detail);
+        }
+    }
+}
+
 fn main() {
     let mut spec = CheckSpec::new(
         "C16",
@@ -568,5 +714,6 @@ fn main() {
         }
     }
     spec.scenarios.push(Box::new(Seq));
+    spec.scenarios.push(Box::new(Reclaim));
     zsim_core::driver::main(spec);
 }
